@@ -232,5 +232,20 @@ Theorem C20_summary_perigee : forall e0 i r0 w m n b, 0 <= e0 <= 4 / 10 -> 64 / 
 Proof. exact P_OeSummary.oe_perigee_close. Qed.
 Print Assumptions C20_summary_perigee.
 
+(* THE ORBIT-SUMMARY CLAUSE, period: the mean motion the summary exposes (OrbitElements.original_mean_motion, from which
+   .period = 2 pi / n is formed) and the recovered mean motion n0'' the propagation uses (xnodp) agree to 0.03 %, and so do the
+   exposed period and 2 pi / n0''; the property's 1 % is then about the difference between the anomalistic period 2 pi / n0''
+   and the nodal period of the trajectory (a fact about the theory, sampled). *)
+From PyOrb.proofs Require P_OePeriod.
+Theorem C20_summary_mean_motion : forall e0 i r0 w m n b, 0 <= e0 <= 4 / 10 -> 64 / 10 <= n <= 17 ->
+  Rabs (gen_oe_original_mean_motion e0 i r0 w m n b - gen_sgp4_xnodp e0 i r0 w m n b) <= 3 / 10000 * gen_sgp4_xnodp e0 i r0 w m n b.
+Proof. exact P_OePeriod.oe_mean_motion_close. Qed.
+Print Assumptions C20_summary_mean_motion.
+
+Theorem C20_summary_period : forall e0 i r0 w m n b, 0 <= e0 <= 4 / 10 -> 64 / 10 <= n <= 17 ->
+  Rabs (gen_oe_period e0 i r0 w m n b - PI * 2 / gen_sgp4_xnodp e0 i r0 w m n b) <= 3 / 10000 * gen_oe_period e0 i r0 w m n b.
+Proof. exact P_OePeriod.oe_period_close. Qed.
+Print Assumptions C20_summary_period.
+
 Example C20_inhabited : 0 < 7000 * (15 / 2).
 Proof. lra. Qed.
